@@ -254,7 +254,19 @@ func (env *SpecEnv) ufunApply(uf *UFun, args []Val) Val {
 		as = append(as, s)
 		names = append(names, strings.Trim(s.Name, "|"))
 	}
-	rty, rs := env.resolveType(uf.Result)
+	var rty types.Type
+	var rs *Sort
+	if strings.HasPrefix(uf.Result, "@") {
+		// result has the sort of the given argument
+		var idx int
+		fmt.Sscanf(uf.Result[1:], "%d", &idx)
+		if idx < 0 || idx >= len(args) {
+			env.fail("ufun %s: bad result reference %s", uf.Name, uf.Result)
+		}
+		rty, rs = args[idx].Go, args[idx].S
+	} else {
+		rty, rs = env.resolveType(uf.Result)
+	}
 	n := sym("uf_" + uf.Name + "_" + strings.Join(names, "_"))
 	ex.w.declFun(n, as, rs)
 	var ts []string
